@@ -13,10 +13,11 @@ from .srcmodel import AnalysisError
 
 
 class Ctx:
-    def __init__(self, root, tier, seed):
+    def __init__(self, root, tier, seed, overrides=None):
         self.root = root
         self.tier = tier
         self.seed = seed
+        self.overrides = overrides
         self._program = None
         self._registry = None
         self._facts = None
@@ -25,7 +26,7 @@ class Ctx:
     def program(self):
         if self._program is None:
             from .srcmodel import Program
-            self._program = Program(self.root)
+            self._program = Program(self.root, overrides=self.overrides)
         return self._program
 
     @property
@@ -43,6 +44,52 @@ class Ctx:
         return self._facts
 
 
+def run_controls(mod, ctx, report, args):
+    """Positive controls: in-memory one-edit variants of the current tree on which a named rule must fire.
+
+    Run on every invocation for checks whose analysis is fast (module attribute CONTROLS_ALWAYS) and in the thorough tier
+    for the others.  A control whose edit no longer applies to the tree is recorded as inapplicable; a control that applies
+    but leaves the rule silent makes the run an ANALYSIS-ERROR (the rule has lost its teeth) — never a VIOLATION."""
+    from . import controls as _controls
+    controls = _controls.CONTROLS.get(report.prop)
+    if not controls or args.no_controls:
+        return
+    if not (report.prop in _controls.ALWAYS or ctx.tier == "thorough"):
+        report.controls = [{"note": "positive controls of this check run in the thorough tier (and in selftest/run.py)"}]
+        return
+    import os
+    done = []
+    for c in controls:
+        overrides = {}
+        applicable = True
+        for ed in c["edits"]:
+            path = os.path.join(ctx.root, ed["file"])
+            try:
+                text = overrides.get(ed["file"]) or open(path, encoding="utf-8").read()
+            except OSError:
+                applicable = False
+                break
+            if ed["old"] not in text:
+                applicable = False
+                break
+            overrides[ed["file"]] = text.replace(ed["old"], ed["new"], 1)
+        if not applicable:
+            done.append({"control": c["name"], "applicable": False})
+            continue
+        ctx2 = Ctx(ctx.root, "quick", ctx.seed, overrides=overrides)
+        rep2 = Report(report.prop, "quick", ctx.seed, ctx.root)
+        try:
+            mod.run(ctx2, rep2)
+        except AnalysisError as e:
+            if not rep2.findings:
+                raise AnalysisError(f"positive control {c['name']!r}: analysis of the variant failed: {e}")
+        fired = [f for f in rep2.findings if c["rule"] in f.rule]
+        done.append({"control": c["name"], "applicable": True, "fired": bool(fired), "finding": fired[0].construct if fired else None})
+        if not fired:
+            raise AnalysisError(f"positive control {c['name']!r} is silent: rule {c['rule']} no longer fires on a variant that breaks the property")
+    report.controls = done
+
+
 def main(argv=None):
     ap = argparse.ArgumentParser()
     ap.add_argument("prop")
@@ -50,6 +97,7 @@ def main(argv=None):
     ap.add_argument("--root", default=os.environ.get("VERIF_ROOT") or "/repo")
     ap.add_argument("--replay", default=None)
     ap.add_argument("--no-write", action="store_true", help="do not write evidence / replay files")
+    ap.add_argument("--no-controls", action="store_true", help="skip the positive controls")
     args = ap.parse_args(argv)
     try:
         seed = int(os.environ.get("VERIF_SEED") or 0)
@@ -70,6 +118,7 @@ def main(argv=None):
     report = Report(prop, args.tier, seed, args.root)
     try:
         mod.run(ctx, report)
+        run_controls(mod, ctx, report, args)
         code = report.finish(write=not args.no_write)
         if args.replay:
             hit = any(f.rule == rep["rule"] and f.construct == rep["construct"] for f in report.findings)
